@@ -7,6 +7,7 @@ import (
 	"go/types"
 	"math/big"
 	"os"
+	"os/exec"
 	"runtime/debug"
 	"sort"
 	"strings"
@@ -79,6 +80,8 @@ type Worker struct {
 	known     map[*Term]bool
 	fresh     int
 	curHarn   *harnessRun
+	curFrame  *frame
+	failStack string
 	cborBlobs map[*value]*cborRec
 	range256  int
 
@@ -127,6 +130,15 @@ type HarnessResult struct {
 	SolverErrors  []string          `json:"solver_errors,omitempty"`
 	GoSpawns      int               `json:"goroutines_run_sequentially"`
 	MaxDecisions  int               `json:"max_decisions_on_a_path"`
+	FeasUnknown   int               `json:"feasibility_queries_unknown_treated_as_feasible"`
+	AssertUnknown int               `json:"assertion_queries_unknown"`
+	Portfolio     int               `json:"assertions_discharged_by_portfolio_fallback"`
+}
+
+func (hr *harnessRun) feasUnknown(n int) {
+	hr.mu.Lock()
+	hr.res.FeasUnknown += n
+	hr.mu.Unlock()
 }
 
 func (hr *harnessRun) noteInconclusive(msg string) {
@@ -201,7 +213,7 @@ func (w *Worker) decideBool(cond *Term, what string) bool {
 		return false
 	}
 	if r0 == Unknown {
-		w.curHarn.noteInconclusive("solver unknown on branch feasibility (" + what + ")")
+		w.curHarn.feasUnknown(1) // treated as feasible: sound over-approximation of the path set
 	}
 	ncond := w.tc.Not(cond)
 	r1 := w.sol.CheckWith(ncond)
@@ -211,7 +223,7 @@ func (w *Worker) decideBool(cond *Term, what string) bool {
 		return true
 	}
 	if r1 == Unknown {
-		w.curHarn.noteInconclusive("solver unknown on branch feasibility (" + what + ")")
+		w.curHarn.feasUnknown(1)
 	}
 	// both feasible: take true now, queue false
 	alt := append(append([]uint64{}, w.trace...), 1)
@@ -419,6 +431,8 @@ func (w *Worker) resetPath(prefix []uint64) {
 	w.pcTerms = w.pcTerms[:0]
 	w.known = map[*Term]bool{}
 	w.fresh = 0
+	w.curFrame = nil
+	w.failStack = ""
 	w.cborBlobs = nil
 }
 
@@ -439,10 +453,13 @@ func (w *Worker) runPath(hr *harnessRun, prefix []uint64) {
 				outcome = r.reason
 			case unsupportedErr:
 				outcome = "unsupported"
-				detail = r.msg
+				detail = r.msg + w.failStack
 			case targetPanic:
 				outcome = "panic"
 				detail = toString(r.v) + " at " + r.where
+			case enginePanic:
+				outcome = "engine-error"
+				detail = fmt.Sprintf("%v at %s%s\n%s", r.val, r.where, w.failStack, firstLines(r.stack, 16))
 			default:
 				outcome = "engine-error"
 				detail = fmt.Sprintf("%v\n%s", r, debug.Stack())
@@ -668,7 +685,7 @@ func (w *Worker) assume(c *Term) {
 		panic(pathEnd{"assume"})
 	}
 	if r == Unknown {
-		w.curHarn.noteInconclusive("solver unknown on assumption feasibility")
+		w.curHarn.feasUnknown(1)
 	}
 }
 
@@ -697,7 +714,16 @@ func (w *Worker) doAssert(c value, label string, fr *frame) {
 		r := w.sol.Check()
 		if r == Sat {
 			w.recordViolation("assert", label, where)
+		} else if r == Unknown && w.portfolio(nc) == Unsat {
+			// discharged by a fresh solver process (portfolio fallback)
+			r = Unsat
+			hr.mu.Lock()
+			hr.res.Portfolio++
+			hr.mu.Unlock()
 		} else if r == Unknown {
+			hr.mu.Lock()
+			hr.res.AssertUnknown++
+			hr.mu.Unlock()
 			hr.noteInconclusive("solver unknown on assertion: " + label)
 		} else if hr.res != nil && w.eng.dumpQueries != "" {
 			w.dumpQuery(label, nc)
@@ -712,6 +738,38 @@ func (w *Worker) doAssert(c value, label string, fr *frame) {
 	case poison:
 		unsupported("assert on poison value")
 	}
+}
+
+// portfolio re-submits PC and negated assertion as a standalone query to fresh
+// solver processes with other configurations; only an unsat answer is used.
+func (w *Worker) portfolio(negated *Term) Result {
+	f, err := os.CreateTemp("", "verif-q-*.smt2")
+	if err != nil {
+		return Unknown
+	}
+	defer os.Remove(f.Name())
+	em := &emitter{seen: map[int]bool{}, tc: w.tc}
+	for _, t := range append(append([]*Term{}, w.pcTerms...), negated) {
+		em.emit(f, t)
+	}
+	for _, t := range w.pcTerms {
+		fmt.Fprintf(f, "(assert %s)\n", t.ref())
+	}
+	fmt.Fprintf(f, "(assert %s)\n(check-sat)\n", negated.ref())
+	f.Close()
+	secs := fmt.Sprint(w.eng.solverTimeoutMs/1000*2 + 10)
+	for _, cmd := range [][]string{
+		{"z3-new", "-T:" + secs, "smt.random_seed=11", f.Name()},
+		{"z3", "-T:" + secs, f.Name()},
+		{"z3-new", "-T:" + secs, "smt.arith.solver=6", "smt.random_seed=3", f.Name()},
+	} {
+		out, _ := exec.Command(cmd[0], cmd[1:]...).Output()
+		first := strings.TrimSpace(strings.SplitN(string(out), "\n", 2)[0])
+		if first == "unsat" && !strings.Contains(string(out), "(error") {
+			return Unsat
+		}
+	}
+	return Unknown
 }
 
 func (w *Worker) dumpQuery(label string, negated *Term) {
@@ -839,8 +897,8 @@ func (eng *Engine) Explore(name string, cfg map[string]int64, nworkers, maxPaths
 	if len(hr.res.SolverErrors) > 0 {
 		hr.res.Inconclusive = append(hr.res.Inconclusive, "solver reported (error ...) lines")
 	}
-	if hr.res.Unknown > 0 {
-		hr.noteInconclusive(fmt.Sprintf("%d solver queries returned unknown", hr.res.Unknown))
+	if hr.res.AssertUnknown > 0 {
+		hr.noteInconclusive(fmt.Sprintf("%d assertion queries returned unknown", hr.res.AssertUnknown))
 	}
 	return hr.res
 }
